@@ -1,3 +1,13 @@
 import Uflow.Props.C13
 open Uflow.Props.C13
 #print axioms C13_satMul2_le
+#print axioms C13_fill_cap
+#print axioms C13_step_fill
+#print axioms C13_frame_needs_credit
+#print axioms C13_credit_floor
+#print axioms C13_emitters
+#print axioms C13_psOk_init
+#print axioms C13_psOk_exec
+#print axioms C13_flush_idempotent_credit
+#print axioms C13_interval
+#print axioms C13_interval_between_steps
